@@ -45,7 +45,7 @@ static Case gen_case() {
   int nm = weighted({70, 22, 8}) + 1;
   for (int i = 0; i < nm; i++) {
     Mut m;
-    m.kind = weighted({14, 22, 8, 22, 14, 10, 6, 4});
+    m.kind = weighted({14, 22, 8, 22, 14, 10, 6, 4, 12});
     uint64_t approx = 6000;
     m.v = gen_field_value(approx);
     if (m.kind == 2) m.v = one_of<uint64_t>({ref::MAGIC_V1, ref::MAGIC_V2, ref::MAGIC_V2 + 1, ref::MAGIC_V1 - 1, 0});
@@ -54,6 +54,11 @@ static Case gen_case() {
       m.b = pick(0, 255);
     }
     if (m.kind == 6) m.b = pick(0, 8);
+    if (m.kind == 8) {
+      int a = chance(60) ? 0 : pick(0, 8), g = chance(50) ? one_of<int>({5, 6}) : pick(0, 8);
+      if (g == a) g = (a + 6) % 9;
+      m.b = a + 9 * g + 81 * (int)chance(30);
+    }
     c.muts.push_back(m);
   }
   return c;
@@ -71,11 +76,15 @@ static std::vector<uint64_t> boundary_values(uint64_t size) {
 static int extra_modes(const WorkerOpts &o, Stats &stats) {
   if (o.mode != "enum") return 2;
   // work items: (base, field kind, verify); each item is one child looping over all values of the field
-  struct Item { int base, kind, verify; };
+  struct Item { int base, kind, verify, b; };
   std::vector<Item> items;
   for (int b = 0; b < NBASE; b++)
     for (int k : {0, 1, 2, 3, 4})
-      for (int vf = 0; vf < 2; vf++) items.push_back({b, k, vf});
+      for (int vf = 0; vf < 2; vf++) items.push_back({b, k, vf, 0});
+  // coupled pairs: index_block_offset (field 0) against bytes_data_blocks (5) and bytes_index_block (6), sum- and difference-preserving
+  for (int b = 0; b < NBASE; b++)
+    for (int g : {5, 6})
+      for (int mode = 0; mode < 2; mode++) items.push_back({b, 8, (b + g + mode) % 2, 0 + 9 * g + 81 * mode});
   int full = (int)o.geti("full", 0);
   for (size_t ii = (size_t)o.worker; ii < items.size(); ii += (size_t)o.nworkers) {
     Item it = items[ii];
@@ -96,6 +105,7 @@ static int extra_modes(const WorkerOpts &o, Stats &stats) {
         Mut m;
         m.kind = it.kind;
         m.v = vals[i];
+        m.b = it.b;
         apply_mut(img, m);
         if (gate_passed(img)) gate++;
         try_open(img, it.verify, 0);
@@ -118,6 +128,7 @@ static int extra_modes(const WorkerOpts &o, Stats &stats) {
     Mut m;
     m.kind = it.kind;
     m.v = prev.empty() ? 0 : toull(prev);
+    m.b = it.b;
     rep.muts.push_back(m);
     if (!cr.clean() || n_done < 0) {
       Result r1 = run_case(rep);
@@ -130,7 +141,7 @@ static int extra_modes(const WorkerOpts &o, Stats &stats) {
     Result r;
     r.nontrivial = true;
     r.tag("enum_base_" + std::to_string(it.base));
-    r.tag("enum_field_" + std::to_string(it.kind));
+    r.tag("enum_field_" + std::to_string(it.kind) + (it.kind == 8 ? "_pair" + std::to_string(it.b) : std::string()));
     stats.add(rep.ser() + "# enumerated: every value of this field (" + std::to_string(n_done) + " values)\n", r);
     stats.evaluations += n_done - 1;
     stats.counters["bulk_distinct_nontrivial"] += gate > 0 ? gate - 1 : 0;
